@@ -66,6 +66,8 @@ class Spec:
     enums: list = field(default_factory=list)         # ghost enumerations: (RSeq const, predicate Ref -> Bool)
     defs: list = field(default_factory=list)          # ground definitional unfoldings of fold-style spec functions (run-time monitor)
     ghosts: list = field(default_factory=list)        # (name, const): spec-level ghost values matched with the body's ghost locals
+    gdefs: list = field(default_factory=list)         # ground definitional unfoldings of recursively defined spec functions: assumed by
+                                                      # the body and at call sites, never checked (conservative definitions only)
 
 
 class SpecCtx:
@@ -83,7 +85,7 @@ class SpecCtx:
         a = self.__dict__.get("args", {})
         if name in a:
             v = a[name]
-            if isinstance(v, (VRef, VInt, VBool, VStr, VCls, VCallback, VSeq, VAttrs, VAdj)):
+            if isinstance(v, (VRef, VInt, VBool, VStr, VCls, VCallback, VSeq, VAttrs, VAdj, VOptTable, VOpts)):
                 return v.term
             return v
         raise AttributeError(name)
@@ -99,6 +101,10 @@ class SpecCtx:
 
     def measure(self, m):
         self.spec.measure = m
+
+    def define(self, *facts):
+        """ground unfoldings of a (conservatively) defined spec function, available to the body and to callers"""
+        self.spec.gdefs.extend(facts)
 
     def ghost(self, name, sort):
         """an existentially quantified spec value (e.g. the number of steps of a canonical machine); the body check
